@@ -23,6 +23,7 @@ import (
 	"github.com/33cn/chain33/queue"
 	"github.com/33cn/chain33/store"
 	_ "github.com/33cn/chain33/system" // register drivers
+	"github.com/33cn/chain33/system/consensus/solo"
 	cty "github.com/33cn/chain33/system/dapp/coins/types"
 	"github.com/33cn/chain33/types"
 	"github.com/33cn/chain33/util"
@@ -51,10 +52,10 @@ var seq int64
 
 // Options configures a node.
 type Options struct {
-	Snap       Snapshot // start from this content instead of empty databases
-	CfgEdit    func(s string) string
-	CfgMutate  func(cfg *types.Chain33Config)
-	NoMempool  bool
+	Snap        Snapshot // start from this content instead of empty databases
+	CfgEdit     func(s string) string
+	CfgMutate   func(cfg *types.Chain33Config)
+	NoMempool   bool
 	NoConsensus bool
 }
 
@@ -65,7 +66,11 @@ const GenesisKeyHex = "CC38546E9E659D15E6B4893F0AB32A06D103931A8230B0BDE71459D2B
 func CfgString(edit func(string) string) string {
 	s := types.GetDefaultCfgstring()
 	s = strings.Replace(s, `driver="leveldb"`, `driver="vdb"`, -1)
-	s = strings.Replace(s, "waitTxMs=1\n", "waitTxMs=100000000\n", 1)
+	// the node does not produce blocks of its own (transactions returned to the pool by a
+	// reorganisation would otherwise be mined whenever a case stalls for a poll period); harnesses
+	// that want local production switch it back on (C28)
+	s = strings.Replace(s, "waitTxMs=1\n", "waitTxMs=20\n", 1)
+	s = strings.Replace(s, "minerstart=true\n", "minerstart=false\n", 1)
 	s = strings.Replace(s, `loglevel = "debug"`, `loglevel = "crit"`, 1)
 	s = strings.Replace(s, `logConsoleLevel = "info"`, `logConsoleLevel = "crit"`, 1)
 	if edit != nil {
@@ -153,6 +158,16 @@ func (n *Node) Close() {
 	n.closed = true
 	if n.Cons != nil {
 		n.Cons.Close()
+		// solo's Close only logs; the base client's Close is what ends its event loop and block producer
+		if c, ok := n.Cons.(*solo.Client); ok {
+			// a Close that arrives before the event loop has subscribed does nothing and leaves the loop
+			// (and everything it references) behind for good: make sure the loop answers first
+			msg := n.Client.NewMessage("consensus", types.EventConsensusQuery, &types.ChainExecutor{Driver: "verif-no-such-driver", FuncName: "none"})
+			if err := n.Client.SendTimeout(msg, true, 5*time.Second); err == nil {
+				_, _ = n.Client.WaitTimeout(msg, 5*time.Second)
+			}
+			c.BaseClient.Close()
+		}
 	}
 	if n.Mem != nil {
 		n.Mem.Close()
